@@ -52,9 +52,16 @@ def run(tier, seed, replay=None):
         subprocess.run([os.path.join(tools, "hexasm"), p, "-o", os.path.join(wd, "svcfirst.bin")], cwd=wd, capture_output=True)
         if os.path.exists(os.path.join(wd, "svcfirst.bin")):
             bins["svcfirst"] = os.path.join(wd, "svcfirst.bin")
+        # a READ whose result word is the word holding the SVC instruction being executed
+        p = os.path.join(wd, "readown.S")
+        open(p, "w").write("BR start\nDATA 5\nstart\nLDAC 0\nSTAM 7\nLDAC 2\nBR svcw\nDATA 0\nDATA 0\nDATA 0\nsvcw\nDATA 211\nDATA 0\nDATA 0\n"
+                           "cont\nLDAC 0\nOPR ADD\nLDBM 1\nSTAI 2\nLDAC 0\nOPR SVC\n")
+        subprocess.run([os.path.join(tools, "hexasm"), p, "-o", os.path.join(wd, "readown.bin")], cwd=wd, capture_output=True)
+        if os.path.exists(os.path.join(wd, "readown.bin")):
+            bins["readown"] = os.path.join(wd, "readown.bin")
         jobs = []
         for name, path in bins.items():
-            for inp in P.INPUTS.get(name, [b""]):
+            for inp in P.INPUTS.get(name, [b"A", b""] if name == "readown" else [b""]):
                 jobs.append((name, path, inp, "-"))
         nisa = 60 if tier == "quick" else 3000
         for name, (path, inp, files) in isa_binaries(r, wd, nisa).items():
